@@ -604,6 +604,12 @@ def data_targets(shape, tier):
     for c, vt in comps:
         if c in seen or any(k not in w.sels for k in c[1:]):
             continue
+        # a selection that reaches d only through a key join is translated as a WHOLE (Data.get_mask falls back to
+        # the join for the complete state): combined with a selection on d's own attributes it is evaluable on
+        # neither table, so such mixtures are outside the domain (C11 covers composites across joins)
+        nj = sum(1 for k in c[1:] if w.sels[k][1] == 'KeyJoin')
+        if 0 < nj < len(c) - 1:
+            continue
         seen.add(c)
         out.append(('coupled', ('sel', list(c)), vt))
     return out
